@@ -27,6 +27,7 @@ type hyp struct {
 	env   *Env
 	reach string
 	done  map[string]bool
+	strKey bool                      // the single variable is a string (map key)
 	heaps map[string]map[string]bool // quantified variable -> element heaps it indexes directly (nil: unknown)
 }
 
@@ -59,6 +60,17 @@ func (g *Gen) registerHyps(e Expr, pre []Expr, env *Env, reach string) {
 			g.registerHyps(x.Y, append(append([]Expr{}, pre...), x.X), env, reach)
 		}
 	case *EQuant:
+		if x.Forall && len(x.Vars) == 1 && x.Vars[0].Type == "string" {
+			// map-key shaped hypothesis: instantiated at the key terms of map operations
+			h := &hyp{pre: pre, qv: x.Vars[0], qvs: x.Vars, body: x.Body, env: env, reach: reach, done: map[string]bool{}, strKey: true}
+			g.hyps = append(g.hyps, h)
+			for _, t := range g.seenKeys {
+				if f := g.instStr(h, t); f != "" {
+					g.addFact(f)
+				}
+			}
+			return
+		}
 		if x.Forall && allIntVars(x.Vars) {
 			h := &hyp{pre: pre, qv: x.Vars[0], qvs: x.Vars, body: x.Body, env: env, reach: reach, done: map[string]bool{}}
 			h.heaps = g.varHeaps(env, append(append([]Expr{}, pre...), x.Body), x.Vars)
@@ -250,13 +262,38 @@ func (g *Gen) instStr(h *hyp, term string) (out string) {
 		}
 	}()
 	env := h.env.child()
-	env.vars[h.qv.Name] = &SV{S: term, T: types.Typ[types.Int]}
+	vt := types.Type(types.Typ[types.Int])
+	if h.strKey {
+		vt = types.Typ[types.String]
+	}
+	env.vars[h.qv.Name] = &SV{S: term, T: vt}
 	var pres []string
 	for _, p := range h.pre {
 		pres = append(pres, env.eval(p).S)
 	}
 	body := env.eval(h.body).S
 	return implies(h.reach, implies(and(pres...), body))
+}
+
+// seeMapKey: the code uses term as a string map key.
+func (g *Gen) seeMapKey(term string) {
+	if len(term) > 300 {
+		return
+	}
+	for _, t := range g.seenKeys {
+		if t == term {
+			return
+		}
+	}
+	g.seenKeys = append(g.seenKeys, term)
+	for _, h := range g.hyps {
+		if !h.strKey {
+			continue
+		}
+		if f := g.instStr(h, term); f != "" {
+			g.addFact(f)
+		}
+	}
 }
 
 // instMulti instantiates a multi-variable hypothesis at the given terms (one per variable).
@@ -312,7 +349,7 @@ func (g *Gen) seeIndex(term string, key string) {
 		g.seenIdx = append(g.seenIdx, term)
 	}
 	for _, h := range g.hyps {
-		if len(h.qvs) > 1 {
+		if len(h.qvs) > 1 || h.strKey {
 			continue
 		}
 		if os.Getenv("GOVC_NOFILTER") != "see" && !relevant(h.heaps[h.qv.Name], map[string]bool{key: true}) {
@@ -322,6 +359,53 @@ func (g *Gen) seeIndex(term string, key string) {
 			g.addFact(f)
 		}
 	}
+}
+
+// indexedSlices returns the SMT terms of the slices that variable v indexes directly in e.
+func (g *Gen) indexedSlices(env *Env, e Expr, v string) (out []string) {
+	defer func() {
+		if r := recover(); r != nil {
+			if _, ok := r.(specError); ok {
+				return
+			}
+			panic(r)
+		}
+	}()
+	saved := g.sideFact
+	g.sideFact = nil
+	defer func() { g.sideFact = saved }()
+	seen := map[string]bool{}
+	var walk func(e Expr)
+	walk = func(e Expr) {
+		switch x := e.(type) {
+		case *EUnary:
+			walk(x.X)
+		case *EBinary:
+			walk(x.X)
+			walk(x.Y)
+		case *ECall:
+			for _, a := range x.Args {
+				walk(a)
+			}
+		case *ESel:
+			walk(x.X)
+		case *EIndex:
+			if id, ok := x.I.(*EIdent); ok && id.Name == v {
+				ne := env.child()
+				ne.vars[v] = &SV{S: "0", T: types.Typ[types.Int]}
+				xv := ne.eval(x.X)
+				if _, isSlice := xv.T.Underlying().(*types.Slice); isSlice && !seen[xv.S] {
+					seen[xv.S] = true
+					out = append(out, xv.S)
+				}
+			}
+			walk(x.X)
+		case *EQuant:
+			walk(x.Body)
+		}
+	}
+	walk(e)
+	return out
 }
 
 // relevant: may a term that indexes the heaps `have` stand for a variable that indexes `want`?
@@ -529,6 +613,35 @@ func (g *Gen) lightGoal(o *Obligation, e Expr, env *Env, cond string) {
 				return conj(x.Y, append(append([]Expr{}, pre...), x.X), ne)
 			}
 		case *EQuant:
+			if !x.Forall && len(x.Vars) == 1 && allIntVars(x.Vars) {
+				// existential goal: try the index terms the code used and "last element" of every
+				// slice the variable indexes as witnesses (a disjunction of instances implies it)
+				var cands []string
+				n := len(g.seenIdx)
+				lo := 0
+				if n > 8 {
+					lo = n - 8
+				}
+				cands = append(cands, g.seenIdx[lo:]...)
+				for _, sl := range g.indexedSlices(ne, x.Body, x.Vars[0].Name) {
+					cands = append(cands, "(- (s-len "+sl+") 1)")
+				}
+				if len(cands) > 0 {
+					var pres []string
+					for _, p := range pre {
+						pres = append(pres, ne.eval(p).S)
+					}
+					var alts []string
+					for _, t := range cands {
+						ce := ne.child()
+						ce.vars[x.Vars[0].Name] = &SV{S: t, T: types.Typ[types.Int]}
+						alts = append(alts, ce.eval(x.Body).S)
+					}
+					nq++
+					o.LightWeak = true
+					return implies(and(pres...), "(or "+strings.Join(alts, " ")+" false)")
+				}
+			}
 			if x.Forall && allIntVars(x.Vars) {
 				nq++
 				ce := ne.child()
@@ -604,6 +717,17 @@ func (g *Gen) lightGoal(o *Obligation, e Expr, env *Env, cond string) {
 	}
 	extra := append([]string{}, g.seenIdx[lo:]...)
 	for _, h := range g.hyps {
+		if h.strKey {
+			for _, t := range g.seenKeys {
+				saved := h.done[t]
+				h.done[t] = false
+				if f := g.instStr(h, t); f != "" {
+					o.LightExtra = append(o.LightExtra, f)
+				}
+				h.done[t] = saved
+			}
+			continue
+		}
 		if len(h.qvs) <= 1 {
 			for _, t := range cands {
 				if !relevant(h.heaps[h.qv.Name], heapsOf(t)) {
